@@ -73,6 +73,17 @@ def _parse_q(tok):
     return -v if neg else v
 
 
+def _strict(o):
+    """strict-JSON copy: nan/inf become strings"""
+    if isinstance(o, float) and (math.isnan(o) or math.isinf(o)):
+        return str(o)
+    if isinstance(o, dict):
+        return {k: _strict(v) for k, v in o.items()}
+    if isinstance(o, (list, tuple)):
+        return [_strict(v) for v in o]
+    return o
+
+
 def _take_vec(toks, i, conv):
     n = int(toks[i + 1])
     return [conv(t) for t in toks[i + 2:i + 2 + n]], i + 2 + n
@@ -141,7 +152,7 @@ def corr(seed, tier):
         rec = {"check": check, "case": idx, "mode": it[0], "m": int(it[2]), "n": int(it[3]), "Jkind": it[4],
                "lamkind": it[5], "case_line": cases[idx][:2000]}
         rec.update(extra)
-        failures.append(rec)
+        failures.append(_strict(rec))
 
     for idx, (il, ml) in enumerate(zip(impl, model)):
         it, mt = il.split(), ml.split()
